@@ -1042,7 +1042,7 @@ reg('C11', frontprops.run_C11, ['Prop_C11.v'], 'declaration mixes: seeded random
 reg('C12', frontprops.run_C12, ['Prop_C12.v'], 'seeded random usable grammars with one planted defect each: undefined symbol anywhere in a right-hand side; nonterminal without terminal derivation through left recursion, right recursion, mutual recursion, two recursive rules, unreachable, at the start symbol; %type name without rule; %start without rule; and the accept side: productive only through an empty rule, productive through a chain of unit rules listed in the unfavourable order, no defect. Compared: refusal and its reason (from the panic text) with the planted defect, and with the Coq front-end model run on the implementation\'s AST. non-trivial = grammars that must be refused',
     technique='Coq theorem (the sweep-until-stable loop computes exactly the productive symbols) + planted-defect grammars through the real front end + Coq front-end model (visit, build_grammar) on the implementation AST',
     level_text='Proved in Coq: the fixpoint loop of CalculateCanTerminate/CalculateEpsilonClosure as modelled computes exactly the inductive predicate "derives a terminal string", with fuel |rules|+1 shown sufficient (C12_productive, C12_unproductive_exact); build_grammar and visit refuse exactly in the listed cases (undefined symbol, %type/%start name without rule, unproductive nonterminal, unknown %prec symbol) and otherwise return a grammar (C12_build_cases, C12_visit_cases); the only other refusal, \'too many states\', happens exactly when the LR(0) collection has 2000 states or more, and below that the worklist\'s fuel is irrelevant (C12_state_limit, C12_below_limit, C12_delivered_below_limit). The model is compared with the implementation on every run on grammars with planted defects of every kind and position (the planted nonterminal is sometimes called `start`), and the implementation\'s verdict is compared with the planted defect itself.',
-    level_note=MODEL_NOTE + ' The 2000-state limit is outside the checked range.')
+    level_note=MODEL_NOTE + ' The 2000-state boundary is exercised on the implementation only (1999 states processed, 2000 refused); the model is characterised at that boundary by C12_state_limit but not run there.')
 
 reg('C16', genprops.run_C16, ['Prop_C16.v'], 'grammars: curated families, one grammar per group of literal characters covering every printable special character (quotes, backslash-free, %, $, braces, bar, space, backquote), seeded random grammars (operator tables, many literals, long rules and many alternatives, empty rules, precedences), declaration mixes; actions drawn from a pool that uses $$ and $n with typed symbols and contains %, format strings, block and line comments, strings with braces and quotes, raw strings, nested blocks; minimal prologue (package + import fmt / "use strict") and epilogue (GetToken). Every output path holds a longer, older file before generation (regenerate in place). Every file the CLI built from /repo reports as generated is compiled: the four Go variants as packages of one module through `go vet` (type check) and `go build`, the TypeScript variant loaded by node >= 22 with type stripping. non-trivial = (grammar, variant) pairs that the generator accepted',
     technique='Coq theorems on the text fragments the builder pastes (rule comment cannot be closed by action text; translate case labels distinct; the action substitution pastes dollar-free text unchanged and emits for a reference exactly the field of that symbol) + model of the action substitution against the emitted code of every action + go vet/go build/node on every generated file of a corpus stressing names, literals, actions and rule shapes',
